@@ -45,7 +45,7 @@ ANCHORS = ['pfhedge.nn.modules.hedger:Hedger.compute_hedge',
            'pfhedge.nn.functional:quadratic_cvar']
 DECIDING = ["grad.matches_fd", "nograd.no_graph", "grad.enable_grad_has_graph"]
 REQUIRED_BRANCHES = ["grad_after_no_grad_pass", "branch.stepwise", "branch.vectorised", "cost>0", "criterion.QuadraticCVaR.concentrated", "mode.eval", "mode.train",
-                     "output_activation.saves_output", "H>1", "model.clamp_with_parameter_dependent_bounds", "prev_hedge.through_parameter_free_module_output", "parameter_point.zero_output_layer", "model.random_layer_in_train_mode"]
+                     "output_activation.saves_output", "H>1", "model.clamp_with_parameter_dependent_bounds", "prev_hedge.through_parameter_free_module_output", "parameter_point.zero_output_layer", "model.random_layer_in_train_mode", "after_fine_tuning_one_layer", "long_time_grid_with_prev_hedge"]
 
 
 def _u(x):
@@ -110,8 +110,11 @@ def make_model(rng, n_in, n_out, prev):
 def drv_grad(ctx, k, rng):
     stock = P.make_stock(rng, pick(rng, ["brownian", "heston", "merton", "kou", "localvol"]), dtype=F64, cost=float(pick(rng, [0.0, 1e-3, 1e-2])) if k % 16 != 9 else 0.0,
                          dt=float(pick(rng, [1 / 250, 1 / 52])))
-    derivative = P.make_derivative(rng, stock, pick(rng, ["european", "lookback", "european", "forward_start", "european_binary"]),
-                                   n_steps=int(pick(rng, [2, 3, 5])), clauses=False)
+    long_grid = k % 64 == 33  # deterministic coverage: a recurrence over a long time grid (300 steps), small linear model
+    derivative = P.make_derivative(rng, stock, pick(rng, ["european", "lookback", "european", "forward_start", "european_binary"]) if not long_grid else "european",
+                                   n_steps=int(pick(rng, [2, 3, 5])) if not long_grid else 300, clauses=False)
+    if long_grid:
+        ctx.branch("long_time_grid_with_prev_hedge")
     crit, ck = make_criterion(rng)
     if k % 8 == 3:
         crit, ck = QuadraticCVaR(10.0), "qcvar"  # deterministic coverage: short-dated hedge P&L is concentrated (mean(max - x) < 1/(2 lam))
@@ -135,7 +138,7 @@ def drv_grad(ctx, k, rng):
     prev = bool(rng.random() < 0.5)
     if k % 8 == 7:
         prev = True  # deterministic coverage: a band model whose clamp bounds carry the parameters (below)
-    if k % 8 == 1:
+    if k % 8 == 1 or long_grid:
         prev = True  # deterministic coverage: prev_hedge through a parameter-free module-output feature (below)
     if k % 8 == 5:
         prev = False  # deterministic coverage: vectorised branch with an output activation that saves its output
@@ -154,7 +157,9 @@ def drv_grad(ctx, k, rng):
         model, mk, oa = MultiLayerPerceptron(in_features=n_in, out_features=n_h, n_layers=1, n_units=4, activation=torch.nn.Tanh(), out_activation=torch.nn.Tanh()), "mlp", "tanh"
     if k % 8 == 7 and n_h == 1:
         model, mk, oa = NoTransactionBand(n_in, k % 16 == 7), ("ntb_leaky" if k % 16 == 7 else "ntb"), "clamp"
-    if k % 16 == 9:
+    if k % 32 == 21:
+        model, mk, oa = MultiLayerPerceptron(in_features=n_in, out_features=n_h, n_layers=2, n_units=4, activation=torch.nn.Tanh()), "mlp", "identity"
+    if k % 16 == 9 or long_grid:
         model, mk, oa = torch.nn.Linear(n_in, n_h), "linear", "identity"  # deterministic coverage of the zero-output-layer point (below)
     if mk.startswith("ntb"):
         ctx.branch("model.clamp_with_parameter_dependent_bounds")
@@ -168,7 +173,7 @@ def drv_grad(ctx, k, rng):
     ctx.branch("branch.stepwise" if prev else "branch.vectorised")
     if stock.cost > 0:
         ctx.branch("cost>0")
-    n_paths = int(pick(rng, [6, 15]))
+    n_paths = int(pick(rng, [6, 15])) if not long_grid else 3
     derivative.simulate(n_paths=n_paths)
     params = [p for p in hedger.parameters()] + [p for p in params_extra if all(p is not q for q in hedger.parameters())]
     # de-duplicate while keeping order
@@ -198,6 +203,15 @@ def drv_grad(ctx, k, rng):
         torch.manual_seed(mask_seed)
         return hedger.criterion(hedger.compute_portfolio(derivative, hedge), derivative.payoff())
 
+    if (rng.random() < 0.15 or k % 32 == 21) and mk in ("mlp", "dropout") and not long_grid:
+        # the hedger has been fine-tuned before (one epoch, no validation, an optimiser over the last layer only): every parameter is still a parameter
+        from torch.optim import SGD
+
+        last = [m_ for m_ in hedger.model.modules() if isinstance(m_, torch.nn.Linear)][-1]
+        hedger.fit(derivative, hedge, n_epochs=1, n_paths=4, verbose=False, validation=False, optimizer=SGD(last.parameters(), lr=1e-3))
+        hedger.train() if mode == "train" else hedger.eval()
+        derivative.simulate(n_paths=n_paths)
+        ctx.branch("after_fine_tuning_one_layer")
     if rng.random() < 0.5:
         # an evaluation-only pass first (as fit()'s validation does): nothing it leaves behind may cut the graph of the next pass
         with torch.no_grad():
